@@ -299,6 +299,15 @@ def ops_for(pid):
         return {'name': 'expanding().x.%s' % name, 'kind': P, 'index': 'int',
                 'build': lambda s, p: getattr(s.expanding().x, name)(), 'oracle': lambda d, p: getattr(d.x, name)()}
 
+    def expanding_frame(name):
+        return {'name': 'expanding()[x,y].%s' % name, 'kind': P, 'index': 'int',
+                'build': lambda s, p: getattr(s.expanding()[['x', 'y']], name)(), 'oracle': lambda d, p: getattr(d[['x', 'y']], name)()}
+
+    def expanding_first(name):
+        # the selection made before .expanding()
+        return {'name': 'x.expanding().%s' % name, 'kind': P, 'index': 'int',
+                'build': lambda s, p: getattr(s.x.expanding(), name)(), 'oracle': lambda d, p: getattr(d.x, name)()}
+
     def ewm(com):
         def oracle(d, p):
             if d.x.isna().any():
@@ -338,7 +347,8 @@ def ops_for(pid):
     if pid == 'C06':
         return [red('sum'), red('count'), red('mean'), red('size'), red('sum', True), red('mean', True), red('count', True),
                 gb('sum'), gb('count'), gb('size'), gb('mean'), gb('var'), gb('std'), gb('sum', True), gb('mean', True),
-                gbd('var', 0), gbd('std', 0), vc(), gb_intlabels('sum'), gb_intlabels('mean')]
+                gbd('var', 0), gbd('std', 0), vc(), gb_intlabels('sum'), gb_intlabels('mean'),
+                expanding('sum'), expanding('mean'), expanding('count'), expanding_frame('sum'), expanding_first('var')]
     if pid == 'C07':
         return [win('sum', 2), win('mean', 3), win('count', 1), win('var', 3), win('std', 2), win('size', 2),
                 wint('sum', 2), wint('mean', 1), wingb('sum', 2), wingb('mean', 3), wingb('count', 2), wingb('size', 3),
